@@ -7,3 +7,7 @@ def register_all(reg):
     reg("C31", "seqx", "exploration", "bounded-exhaustive input enumeration vs reference model",
         "Every AgentDef argument combination of the alphabet and every create_agents index kind is executed on the real classes and compared with a reference cost model / an individually built AgentDef; complete within the alphabet.",
         E2_NOTE, "DESIGN.md 3 C31")
+
+    reg("C19", "seqx", "model_checking", "explicit-state BFS over operation histories of the real computation/Agent/Messaging code, canonical-state dedup, reference-list oracle",
+        "All histories up to the stated length over receptions from two senders, posts, start, pause, resume and agent-loop steps are executed on the real MessagePassingComputation hosted by a real Agent/Messaging; each state and its drained continuation is compared with a two-list reference model (reception order, posting order).",
+        "The agent loop is played by the harness (no thread); only MSG_ALGO environment messages. " + E2_NOTE, "DESIGN.md 3 C19")
